@@ -7,6 +7,7 @@
   `List Ctx → List Ctx`, applied left to right, no state, no `Break`).  For EVERY history of rows.
   Helper lemmas: `Jawk/Lemmas/PipelinePure.lean`, `Jawk/Lemmas/PipelineSpec.lean`.
 -/
+import Jawk.Lemmas.RunCor
 import Jawk.Lemmas.PipelineSpec
 import Jawk.Lemmas.RunSpec
 namespace Jawk.C03
@@ -104,5 +105,43 @@ theorem run_refines (orc : Oracles) (c : Cfg) (sources : List Source) (wOut wErr
 /-! ### non-vacuity: a chain with every kind of stage satisfies the hypotheses -/
 example (orc : Oracles) : NoAbort orc exampleChain ∧ Initial exampleChain exampleStates ∧ GroupLast exampleChain :=
   ⟨exampleChain_noAbort orc, by simp [exampleChain, exampleStates, Initial], by simp [exampleChain, GroupLast]⟩
+
+
+/-! ### absent options are identity stages; repeated options keep their order -/
+
+/-- no options: no stage at all — every row reaches the printer unchanged -/
+theorem absent_options_identity (orc : Oracles) :
+    build orc {} = .ok RunSpec.defaultPipeline ∧ RunSpec.defaultPipeline.cfgs = [] ∧ RunSpec.defaultPipeline.sts = [] ∧
+      ∀ rows, RunCor.R orc RunSpec.defaultPipeline rows = rows := RunCor.absent_options_identity orc
+
+/-- exactly one option given = exactly that stage's list function (here `--filter`; `RunCor.only_split`,
+`only_select`, `only_skip_take`, `only_unique`, `only_sort`, `only_group`, `only_merge` are the others) -/
+theorem only_filter (orc : Oracles) (f : Str) (e : Expr) (hf : parseOptionExpr f = .ok e) :
+    ∃ p, build orc { filter := some f } = .ok p ∧ p.cfgs = [.filter e] ∧
+      ∀ rows, RunCor.R orc p rows = rows.filter (fun c => match evalT orc e c with
+        | some (.bool true) => true
+        | _ => false) := RunCor.only_filter orc f e hf
+
+/-- repeated `--select` keep the order given (columns and titles in that order); everything else in the chain
+is not a select -/
+theorem selects_in_order (orc : Oracles) (c : Cfg) (p : Pipeline) (h : build orc c = .ok p) :
+    ∃ (parsed : List (Str × Expr)) (A B : List StageCfg),
+      mapRes (fun s => cfgErr (parseSelection s)) c.selects = .ok parsed ∧
+      c.selects.map (fun s => cfgErr (parseSelection s)) = parsed.map .ok ∧
+      p.cfgs = A ++ parsed.map (fun (n, e) => StageCfg.select n e) ++ B ∧
+      (∀ x ∈ A, RunCor.isSelect x = false) ∧ (∀ x ∈ B, RunCor.isSelect x = false) ∧
+      p.cfgs.filter RunCor.isSelect = parsed.map (fun (n, e) => StageCfg.select n e) ∧
+      (c.group = none → p.titles = parsed.map (·.1)) ∧
+      (c.group ≠ none → p.titles = []) := RunCor.selects_in_order orc c p h
+
+/-- repeated `--sort-by k1 --sort-by k2`: the last given sorts first (outermost), the first given last and is the
+only bounded one — so, both being stable sorts, the first given is the most significant key (C07 `two_key_lex`) -/
+theorem sorts_first_most_significant (orc : Oracles) (c : Cfg) (p : Pipeline) (h : build orc c = .ok p)
+    (k1 k2 : Str) (hs : c.sorts = [k1, k2]) (e1 e2 : Expr) (d1 d2 : Bool)
+    (h1 : parseSorter k1 = .ok (e1, d1)) (h2 : parseSorter k2 = .ok (e2, d2)) :
+    (p.cfgs.zip p.sts).filter (fun x => RunCor.isSort x.1)
+        = [(.sort e2 d2, .sort [] none), (.sort e1 d1, .sort [] (c.take.map (fun t => c.skip + t)))] ∧
+      p.cfgs.filter RunCor.isSort = [.sort e2 d2, .sort e1 d1] :=
+  RunCor.sorts_first_most_significant orc c p h k1 k2 hs e1 e2 d1 d2 h1 h2
 
 end Jawk.C03
